@@ -30,3 +30,4 @@ func vfOffsetOf(a []byte) int
 func vfPrune()
 func vfOffsetIn(a, region []byte) int
 func vfSpawnAtomic(f func())
+func vfSpawnCut(f func(), cut int)
